@@ -90,6 +90,7 @@ SERVES: Dict[str, List[Tuple[str, str, dict]]] = {
                                       "enum": {("attr", P("geometry"), "type"): TAGS}, "why": "every geometry is buffered by every pair of non-negative buffers"})],
     "C12": [(OPS, "intervals_overlap", {"valid": [("or", (("cmp", "is", P("min_absolute_overlap"), NONE), ("cmp", "is", P("min_relative_overlap"), NONE))),
                                                   mk_cmp("ge", P("min_relative_overlap"), C(0)), mk_cmp("le", P("min_relative_overlap"), C(1))],
+                                        "models": lambda ctx_: _c12_models(ctx_),
                                         "why": "every pair of intervals is compared for every single threshold (a relative one in [0, 1])"}),
             (OPS, "have_temporal_overlap", {"why": "the predicate is defined for every pair of geometries (thresholds are intervals_overlap's)"}),
             (OPS, "have_frequency_overlap", {"why": "the predicate is defined for every pair of geometries (thresholds are intervals_overlap's)"})],
@@ -440,6 +441,17 @@ def _decide(lv, box0, params, extra, assumed, depth, venv=None):
     return ("dead",)
 
 
+def _c12_models(ctx) -> bool:
+    """intervals_overlap serves every valid request of the model family of R12.1 - R12.3 (rules/c12.intervals_models)"""
+    from sa.peval import Unknown
+    try:
+        from .c12 import intervals_models
+        r = intervals_models(ctx)
+        return r[1] is None
+    except (Unknown, RecursionError):
+        return False
+
+
 def check_function(ctx: Ctx, rule: str, modname: str, fname: str, spec: dict) -> None:
     s = ctx.summ.of_func(modname, fname)
     file = s.module.relpath
@@ -574,6 +586,10 @@ def check_function(ctx: Ctx, rule: str, modname: str, fname: str, spec: dict) ->
                     + (f" (e.g. {vals})" if vals else "") + (f" [{scen}]" if scen else "")
                     + f" -- {spec.get('why', 'the property promises a result for every valid input')}", r.lineno,
                     witness={"condition": cond, "example": {show(q): v for q, v in ex.items()}})
+        elif spec.get("models") is not None and spec["models"](ctx):
+            # the guard is outside the interval / ordering fragment, but the function itself was evaluated on the finite models of its
+            # rule (all of them valid requests where a value is expected): none of them is refused
+            n_dead += 1
         else:
             ctx.undec(rule, f"{file}:{r.lineno} {fname}", f"cannot decide whether the rejection `{show(r.live)[:90]}` can fire for a valid request: {detail}")
     if n_dead == len(raises) and not spec.get("callee"):
